@@ -161,7 +161,17 @@ func (c *Client) Start(ctx context.Context) {
 
 func (c *Client) handleIncomingDelegation(ctx context.Context, link *protocol.Link, delegation net.Conn) error {
 	hostname := link.GetHostname()
+
+	// The route and the proxy cached for it are read as one step with respect to RebuildTunnels/doReload, which
+	// evict outdated proxies and rewrite the router under configMu: a connection that slips in between would
+	// otherwise re-create (and cache) a proxy from the outdated route, or miss a route that is being replaced.
+	var proxy *httpProxy
+	c.configMu.RLock()
 	u, ok := c.Configuration.router.Load(hostname)
+	if ok && link.GetAlpn() == protocol.Link_HTTP {
+		proxy = c.getHTTPProxy(ctx, hostname, u)
+	}
+	c.configMu.RUnlock()
 	if !ok {
 		c.Logger.Error("Unknown hostname in connection", zap.String("hostname", hostname))
 		delegation.Close()
@@ -175,7 +185,7 @@ func (c *Client) handleIncomingDelegation(ctx context.Context, link *protocol.Li
 
 	switch link.GetAlpn() {
 	case protocol.Link_HTTP:
-		c.getHTTPProxy(ctx, hostname, u).acceptor.Handle(delegation)
+		proxy.acceptor.Handle(delegation)
 
 	case protocol.Link_TCP:
 		c.forwardStream(ctx, hostname, delegation, u)
